@@ -1386,6 +1386,144 @@ def shipped_parts(ctx, seed):
     return [("A5",)]
 
 
+# -------------------------------------------------------------------------------------------------
+# part A6 : reading JobInput.hash must not freeze it (observe -> modify -> observe)
+# -------------------------------------------------------------------------------------------------
+def hash_mutators():
+    """field -> function that modifies that field of a JobInput in place (one per attrs field, found at run time)."""
+    import attrs
+
+    def m_jid(ji):
+        ji.jid = ji.jid + "-m"
+
+    def m_commands(ji):
+        ji.commands = list(ji.commands) + [("true", None)]
+
+    def m_files(ji):
+        ji.files = dict(ji.files or {}, **{"extra.txt": b"x"})
+
+    def m_return_files(ji):
+        ji.return_files = tuple(ji.return_files or ()) + ("a.dat",)
+
+    def m_envars(ji):
+        ji.envars = dict(ji.envars or {}, C17_H="1")
+
+    def m_timeout(ji):
+        ji.timeout = 30.0
+
+    known = {"jid": m_jid, "commands": m_commands, "files": m_files, "return_files": m_return_files, "envars": m_envars, "timeout": m_timeout}
+    fields = [f.name for f in attrs.fields(JobInput)]
+    unknown = [f for f in fields if f not in known]
+    if unknown:
+        raise HarnessError(f"JobInput has fields the hash histories do not modify: {unknown} - extend hash_mutators in mc/props/c17.py")
+    return {f: known[f] for f in fields}
+
+
+def hash_sequences():
+    """(read the hash first?, fields modified in this order, read the hash between the modifications?)"""
+    fields = list(hash_mutators())
+    out = []
+    for read_first in (False, True):
+        for f in fields:
+            out.append((read_first, (f,), False))
+        for f, g in itertools.permutations(fields, 2):
+            out.append((read_first, (f, g), True))
+    return out
+
+
+def hash_exec(ctx, seq, wd):
+    import attrs
+    import copy as _copy
+
+    read_first, fields, read_between = seq
+    muts = hash_mutators()
+    mdir = _fresh(wd / "markers")
+    odir = _fresh(wd / "out")
+    sdir = _fresh(wd / "scratch")
+    idir = _fresh(wd / "in")
+    home = _fresh(wd / "cwd")
+    drv = exec_driver(None)
+    spec = {"cmds": ["Wa"], "named": [True], "ret": [], "infile": "text", "env": None}
+    ji = drv.script.prepare(Item("job17"), spec=spec, mdir=mdir)
+    seen = []
+    if read_first:
+        seen.append(ji.hash)
+    for k, f in enumerate(fields):
+        muts[f](ji)
+        if read_between and k < len(fields) - 1:
+            seen.append(ji.hash)
+    final = ji.hash
+    # an equal input built from scratch
+    fresh = JobInput(**{a.name: _copy.deepcopy(getattr(ji, a.name)) for a in attrs.fields(JobInput)})
+    res = {"final": final, "fresh": fresh.hash, "seen": seen, "out_hash": None, "exc": None}
+    inp = idir / "case.inp"
+    ji.dump(inp)
+    old_argv, old_stdin, cwd0 = sys.argv, sys.stdin, os.getcwd()
+    os.chdir(home)
+    sys.argv = ["_molli_run", str(inp), "-o", str(odir), "-s", str(sdir)]
+    sys.stdin = _NoClose()
+    try:
+        with contextlib.redirect_stderr(io.StringIO()):
+            _runner.run_local()
+    except SystemExit:
+        pass
+    except Exception as e:
+        res["exc"] = type(e).__name__
+    finally:
+        sys.argv, sys.stdin = old_argv, old_stdin
+        os.chdir(cwd0)
+    try:
+        res["out_hash"] = JobOutput.load(odir / "case.out").input_hash
+    except Exception:
+        pass
+    return res
+
+
+def hash_check(ctx, seq, res):
+    read_first, fields, read_between = seq
+    case = {"part": "A6", "seq": [read_first, list(fields), read_between]}
+    last = fields[-1]
+    ok = True
+    if res["final"] != res["fresh"]:
+        sym = "stale-after-an-earlier-read" if (read_first or read_between) else "differs-from-an-equal-fresh-input"
+        ctx.violation(f"hash:JobInput.hash-{sym}" if sym.startswith("stale") else f"hash:modified-{last}:JobInput.hash-{sym}", f"after modifying {list(fields)} (hash read before: {read_first}, between: {read_between}) JobInput.hash differs from the hash of an equal, freshly built JobInput", case, repro=HASH_REPRO)
+        ok = False
+    if res["final"] in res["seen"]:
+        ctx.violation("hash:two-different-inputs-one-hash", f"the hash read before modifying {last} and the hash read after it are the same", case, repro=HASH_REPRO)
+        ok = False
+    if res["exc"] is None and res["out_hash"] is not None and res["out_hash"] != res["fresh"]:
+        ctx.violation(f"hash:modified-{last}:output-input_hash-is-not-the-hash-of-the-executed-input", "the JobOutput of the modified input records another hash than an equal fresh JobInput has", case)
+        ok = False
+    return ok
+
+
+HASH_REPRO = """\
+from molli.pipeline.job import JobInput
+a = JobInput("j", commands=[("true", None)], envars={"A": "1"})
+h = a.hash                      # e.g. a cache lookup or a log line
+a.envars = {"A": "2"}           # the caller adjusts the input before running it
+b = JobInput("j", commands=[("true", None)], envars={"A": "2"})
+print(a.hash == b.hash, a.hash == h)   # expected True False
+"""
+
+
+def run_hash_part(ctx, part):
+    wd = Path(ctx.scratch) / "hashwd"
+    n = 0
+    for seq in hash_sequences():
+        res = hash_exec(ctx, seq, wd)
+        ok = hash_check(ctx, seq, res)
+        n += 1
+        ctx.count(evaluations=1, traces=1, states=1, transitions=2 + len(seq[1]))
+        if ok:
+            ctx.nontrivial(("A6", seq))
+            ctx.outcome(("A6", seq[1], len(set(res["seen"] + [res["final"]]))))
+            if n == 9:
+                ctx.sample({"part": "A6", "seq": [seq[0], list(seq[1]), seq[2]], "hashes_seen": len(res["seen"]) + 1})
+    ctx.add_note("A6_hash_sequences", n)
+    ctx.bound["A6"] = {"fields": list(hash_mutators()), "sequences": "read-hash? -> modify f [-> read-hash -> modify g] -> read-hash -> dump -> execute; every f, every ordered pair (f, g)"}
+
+
 # =================================================================================================
 # part B : execution
 # =================================================================================================
@@ -1494,6 +1632,10 @@ def make_exec_class():
                 if kind == "U":
                     cmds.append((f"{UNSTARTABLE} {i}", f"c{i}" if named else None))
                     continue
+                if kind in ("G", "H"):
+                    # a program named WITHOUT a directory: to be found on the PATH of the job's environment
+                    cmds.append((f"{PROG if kind == 'G' else PROG_ONLY} {shlex.quote(str(mdir))} {i}", f"c{i}" if named else None))
+                    continue
                 cmds.append((shlex.join([self.executable, "-c", body(kind, i, mdir, infile)]), f"c{i}" if named else None))
             files = None
             if spec["infile"] == "text":
@@ -1540,6 +1682,28 @@ def make_exec_class():
 
 
 _EXEC_DRIVERS: dict = {}
+PROG, PROG_ONLY = "c17prog", "c17only"
+_PROGS: dict = {}
+
+
+def prog_dirs(ctx):
+    """Two builds of one program name: the job's (first on the PATH the JOB sets in its envars, where a second
+    program exists only) and a decoy (first on the PATH of the RUNNER process).  Each build leaves its name."""
+    if not _PROGS:
+        root = Path(ctx.scratch) / "progs"
+        base = os.environ.get("PATH", "")
+        for build, names in (("job", (PROG, PROG_ONLY)), ("decoy", (PROG,))):
+            d = root / build
+            d.mkdir(parents=True, exist_ok=True)
+            for nm in names:
+                f = d / nm
+                f.write_text(f'#!/bin/sh\necho $2 >> "$1/order"; pwd > "$1/cwd$2"; printf %s {build} > "$1/build$2"; echo {build}-build; echo {build}-err >&2\n')
+                f.chmod(0o755)
+            _PROGS[build] = d
+        ENV_JOB["path"] = {"PATH": str(_PROGS["job"]) + os.pathsep + base}
+        ENV_PROC["path"] = {"PATH": str(_PROGS["decoy"]) + os.pathsep + base}
+    return _PROGS
+
 
 
 def exec_driver(env_mode):
@@ -1578,6 +1742,7 @@ def reference(spec):
         content_in = BIN_IN
     reads = {}
     envs = {}
+    builds = {}
     unstartable = False
     for i, (kind, named) in enumerate(zip(spec["cmds"], spec["named"])):
         if kind == "U":
@@ -1598,6 +1763,9 @@ def reference(spec):
         elif kind == "R":
             so = content_in.hex()
             reads[i] = content_in
+        elif kind in ("G", "H"):
+            so, se = "job-build\n", "job-err\n"
+            builds[i] = "job"
         elif kind == "E":
             so = "fromjob"
             # "set:<value>" for a variable the job sets (whatever the runner's environment says), ":" for a
@@ -1612,7 +1780,7 @@ def reference(spec):
     ret = spec["ret"] or ()
     files = {f: written[f] for f in ret if f in written}
     ok = failed is None and all(f in written for f in ret)
-    return dict(ran=ran, stdouts=stdouts, stderrs=stderrs, files=files, exit_ok=ok, failed=failed, unstartable=unstartable, reads=reads, envs=envs, missing=[f for f in ret if f not in written])
+    return dict(ran=ran, stdouts=stdouts, stderrs=stderrs, files=files, exit_ok=ok, failed=failed, unstartable=unstartable, reads=reads, envs=envs, builds=builds, missing=[f for f in ret if f not in written])
 
 
 class _NoClose:
@@ -1649,6 +1817,8 @@ def execute(ctx, spec, via, wd: Path):
             odir = proj / "new" / "deep" / "results"  # does not exist yet
         if inv["s"] == "rel-new":
             sdir = home / "scr_rel"  # does not exist yet
+    if spec["env"] == "path":
+        prog_dirs(ctx)
     drv = exec_driver(spec["env"])
     if spec.get("kind") == "paths":
         ji = drv.paths.prepare(Item("job17"), spec=spec, mdir=mdir)
@@ -1675,7 +1845,7 @@ def execute(ctx, spec, via, wd: Path):
     cwd0 = os.getcwd()
     if via == "inproc":
         old_argv, old_stdin = sys.argv, sys.stdin
-        saved = {v: os.environ.get(v) for v in ENV_PROBES}
+        saved = {v: os.environ.get(v) for v in list(ENV_PROBES) + ["PATH"]}
         for v in ENV_PROBES:
             os.environ.pop(v, None)
         os.environ.update(penv)
@@ -1756,6 +1926,8 @@ def execute(ctx, spec, via, wd: Path):
             obs["cwds"][int(p.name[3:])] = os.path.realpath(p.read_text().rstrip("\n"))
         elif p.name.startswith("read"):
             obs["reads"][int(p.name[4:])] = p.read_bytes()
+        elif p.name.startswith("build"):
+            obs.setdefault("builds", {})[int(p.name[5:])] = p.read_text()
         elif p.name.startswith("pin"):
             obs.setdefault("pins", {})[int(p.name[3:])] = p.read_bytes()
         elif p.name.startswith("env"):
@@ -1843,6 +2015,11 @@ def check_exec(ctx, spec, obs, case):
             else:
                 sym = "wrong-value"
             viol("environment", f"{sym}[{cls}]", f"command saw {var} as {got!r} (\"set:<value>\" / \":\" = unset); JobInput.envars says {want!r}, runner environment has {inherited!r} (mode {spec['env']})")
+    for i, b in ref.get("builds", {}).items():
+        got = obs.get("builds", {}).get(i)
+        if i in obs["order"] and got != b:
+            how = "named" if spec["named"][i] else "unnamed"
+            viol("environment", f"program-resolved-on-the-runners-PATH-not-the-jobs[{how}]", f"command {i} names its program without a directory; the job's envars put its own build first on PATH, but the {got!r} build ran")
     # -- the JobOutput
     blamed = []
     for j, b in ref.get("pins", {}).items():
@@ -2052,6 +2229,20 @@ def invocation_specs(ctx, seed):
     return out
 
 
+def progpath_specs(ctx, seed):
+    """PATH itself among the job's environment overrides: programs named without a directory, one with a same-named
+    decoy first on the runner's own PATH, one that exists on the job's PATH only; named and unnamed commands."""
+    out = []
+    for n in (1, 2):
+        for cmds in itertools.product(("G", "H", "P"), repeat=n):
+            if not {"G", "H"} & set(cmds):
+                continue
+            for named in (tuple([True] * n), tuple([False] * n)):
+                out.append({"cmds": list(cmds), "named": list(named), "ret": [], "infile": None, "env": "path"})
+    ctx.bound["B_PATH_override"] = "job envars set PATH; bare program names: one with a decoy build first on the runner's PATH, one only on the job's PATH; lists of length 1..2 with print commands, all named / none named"
+    return out
+
+
 def conformance_specs(ctx, specs, seed):
     """Cases that are also pushed through the installed `_molli_run` console script."""
     if ctx.thorough:
@@ -2129,6 +2320,8 @@ def run_part(sub, part):
         return run_path_part(sub, part)
     if part[0] == "A5":
         return run_shipped_part(sub, part)
+    if part[0] == "A6":
+        return run_hash_part(sub, part)
     return run_cases(sub, part)
 
 
@@ -2198,7 +2391,9 @@ def execution_parts(ctx, seed):
     conf = conformance_specs(ctx, specs, seed)
     pspecs = path_specs(ctx, seed)
     ispecs = invocation_specs(ctx, seed)
-    specs = specs + pspecs + ispecs
+    gspecs = progpath_specs(ctx, seed)
+    specs = specs + pspecs + ispecs + gspecs
+    conf = conf + [x for x in gspecs if x["cmds"] in (["G"], ["H", "G"])]
     # through the console script: the succeeding job, every spelling of -o x both output dirs x both cwds
     conf = conf + [x for x in ispecs if x["cmds"] == ["Wa"] and x["inv"]["inp"] == "rel" and x["inv"]["s"] == "rel-new"]
     # through the console script: each path alone (produced), and one mixed request
@@ -2237,11 +2432,15 @@ def run(ctx):
     ]
     parts = execution_parts(ctx, seed)
     nscript = sum(1 for p in parts if p[0] == "script")
-    parts = parts[:nscript] + binding_parts(ctx, seed) + lifetime_parts(ctx, seed) + call_parts(ctx, seed) + path_parts(ctx, seed) + shipped_parts(ctx, seed) + parts[nscript:]
+    parts = parts[:nscript] + binding_parts(ctx, seed) + lifetime_parts(ctx, seed) + call_parts(ctx, seed) + path_parts(ctx, seed) + shipped_parts(ctx, seed) + [("A6",)] + parts[nscript:]
     ctx.pmap(run_part, parts, nproc=16 if ctx.thorough else 8)
 
 
 def replay(ctx, case):
+    if case.get("part") == "A6":
+        seq = (case["seq"][0], tuple(case["seq"][1]), case["seq"][2])
+        hash_check(ctx, seq, hash_exec(ctx, seq, Path(ctx.scratch) / "hashwd"))
+        return
     if case.get("part") == "A5":
         import inspect
 
